@@ -215,6 +215,8 @@ pub struct Pair {
     _twin_tx_in: Sender<String>,
     /// host stalls injected by the run-loop hook: (loop iteration, milliseconds the host "was descheduled")
     pub stalls: Vec<(u64, u64)>,
+    /// host lines put into the incoming channel by the run-loop hook: (loop iteration, line)
+    pub host_lines: Vec<(u64, String)>,
 }
 
 impl Pair {
@@ -227,7 +229,7 @@ impl Pair {
         let (out_tx2, twin_rx) = channel();
         let (twin_tx_in, in_rx2) = channel();
         twin.vh_attach_channels(out_tx2, in_rx2);
-        Pair { real, twin, real_rx, real_tx_in, twin_rx, _twin_tx_in: twin_tx_in, stalls: Vec::new() }
+        Pair { real, twin, real_rx, real_tx_in, twin_rx, _twin_tx_in: twin_tx_in, stalls: Vec::new(), host_lines: Vec::new() }
     }
 
     pub fn load(&mut self, p: &Prog) {
@@ -375,7 +377,15 @@ pub fn run_checked(pair: &mut Pair, p: &Prog, horizon: u64) -> (Outcome, Option<
     let f2 = fol.clone();
     let mut iter = 0u64;
     let stalls = pair.stalls.clone();
+    let host_lines = pair.host_lines.clone();
+    let tx_in = pair.real_tx_in.clone();
     verif_hooks::set_run_loop_hook(Some(Box::new(move |cpu: &mut Cpu| {
+        for (at, l) in host_lines.iter() {
+            if *at == iter {
+                // a line from the host arrives here (an environment choice the harness makes)
+                let _ = tx_in.send(l.clone());
+            }
+        }
         for &(at, ms) in stalls.iter() {
             if at == iter {
                 // the host is descheduled here for `ms` milliseconds (an environment choice the harness makes)
@@ -601,6 +611,48 @@ fn c13_units(tier: Tier) -> Vec<Unit> {
             }
         },
     ));
+    // ---- host lines that change nothing arrive while the program runs (deviation bound 1, plus one run with three)
+    units.push(Unit::new(
+        "host-lines-during-run",
+        12,
+        "guest shape 1 and 4 with loop counts that cross two sync thresholds (about 4,100,000 states): one host line without architectural effect {a redundant cmd:start, cmd:bogus, a malformed line, an empty line} arrives at one of 3 loop iterations (early, just before the first threshold, between the thresholds), and one run with three lines: result, state count and the complete message sequence (sync messages exactly at the crossings of multiples of 2,000,000) must be those of the undisturbed run",
+        move |ctx, chunk| {
+            let lines = ["cmd:start", "cmd:bogus", "u8:zz:1", ""];
+            for shape in [1usize, 4] {
+                let mut pair = Pair::new();
+                let (a, b) = measure(&mut pair, &ctx.isa, shape);
+                let n = ((4_100_000usize.saturating_sub(a)) / b).max(10) as u32;
+                let p = build(&ctx.isa, shape, n, 0);
+                let (base, v0) = run_checked(&mut pair, &p, 50_000_000);
+                if v0.is_some() || base.result != "ok" {
+                    ctx.custom_violation("c13", format!("undisturbed run: {:?} {}", v0, base.result), json!({"shape": shape, "n": n, "fail": 0}), json!(null), json!(null));
+                    continue;
+                }
+                let per = (base.instructions as usize / n.max(1) as usize).max(1) as u64; // loop iterations of run() per guest loop round
+                let first = ((2_000_000usize.saturating_sub(a)) / b) as u64 * per;
+                let positions = [3u64, first.saturating_sub(5), first + (base.instructions - first) / 3];
+                let line = lines[(chunk % 4) as usize];
+                pair.host_lines = if chunk < 12 && (chunk / 4) < 3 { vec![(positions[(chunk / 4) as usize], line.to_string())] } else { vec![] };
+                if chunk % 4 == 0 && chunk / 4 == 2 {
+                    // the run with three lines
+                    pair.host_lines = vec![(positions[0], "cmd:start".into()), (positions[1], "cmd:start".into()), (positions[2], "cmd:bogus".into())];
+                }
+                let hl = pair.host_lines.clone();
+                let (o, v) = run_checked(&mut pair, &p, 50_000_000);
+                pair.host_lines.clear();
+                ctx.st.cases += 1;
+                ctx.st.nontrivial += 1;
+                *ctx.st.notes.entry("instructions executed through run()".into()).or_insert(0) += o.instructions;
+                let case = json!({"shape": shape, "n": n, "fail": 0, "host_lines": hl.iter().map(|x| json!([x.0, x.1])).collect::<Vec<_>>()});
+                if let Some(msg) = v {
+                    ctx.custom_violation("c13", format!("with host lines {:?}: {}", hl, msg), case, json!(null), json!({"result": o.result}));
+                } else if o.result != base.result || o.state_sum != base.state_sum || o.er != base.er || o.messages != base.messages || o.pc != base.pc {
+                    let k = o.messages.iter().zip(base.messages.iter()).position(|(x, y)| x != y).unwrap_or(o.messages.len().min(base.messages.len()));
+                    ctx.custom_violation("c13", format!("with host lines {:?} the run differs from the undisturbed one: result {} vs {}, state count {} vs {}, {} vs {} messages, first differing message {:?} vs {:?}", hl, o.result, base.result, o.state_sum, base.state_sum, o.messages.len(), base.messages.len(), o.messages.get(k), base.messages.get(k)), case, json!(null), json!(null));
+                }
+            }
+        },
+    ));
     // ---- deep recursion and console texts through run()
     units.push(Unit::new(
         "recursion-and-console",
@@ -716,6 +768,9 @@ pub fn replay_c13(case: &Value) -> bool {
     let mut pair = Pair::new();
     let shape = case["shape"].as_u64().unwrap_or(1) as usize;
     let p = build_pad(&isa, shape, case["n"].as_u64().unwrap_or(1) as u32, case["fail"].as_u64().unwrap_or(0) as usize, case["pad"].as_u64().unwrap_or(0) as usize);
+    if let Some(hl) = case["host_lines"].as_array() {
+        pair.host_lines = hl.iter().map(|x| (x[0].as_u64().unwrap_or(0), x[1].as_str().unwrap_or("").to_string())).collect();
+    }
     if let Some(st) = case["stalls"].as_array() {
         pair.stalls = st.iter().map(|x| (x[0].as_u64().unwrap_or(0), x[1].as_u64().unwrap_or(0))).collect();
     }
